@@ -100,6 +100,7 @@ def runBody (k : SSt → Task → SSt × Option Nat) (p : SProg) (st : SSt) (kin
 /-- The executor: a call through an entry point, the application of one queued command, or a flush of the world queue.
     `none` = error (spawned only) or out of fuel. -/
 def exec (p : SProg) : Nat → SSt → Task → SSt × Option Nat
+  | 0, st, .flush => (if st.wq.isEmpty then st else { st with oof := true }, none)   -- nothing to flush: nothing lost
   | 0, st, _ => ({ st with oof := true }, none)
   | fuel + 1, st, .flush =>
     match st.wq with
